@@ -484,6 +484,9 @@ func (s Schema) unknownField(t string, r *rand.Rand) []byte {
 	}
 }
 
+// generatedTypes: full names of the message types with generated fast-marshal code (nil: not known, all of them)
+var generatedTypes map[string]bool
+
 // padKey re-encodes the key of the single field f in one byte more than necessary (well-formed, never produced by an encoder).
 func padKey(f []byte) []byte {
 	_, n := protowire.ConsumeVarint(f)
@@ -678,10 +681,12 @@ func (s Schema) Encode(t string, m AM, o EncOpts) []byte {
 	if o.Sandwich && sr == nil {
 		sr = rand.New(rand.NewSource(int64(len(chunks))*7919 + 17))
 	}
-	// unknown fields with over-long keys: with LongKeys every other one; in a sandwich the last one
+	// unknown fields with over-long keys: with LongKeys every other one; in a sandwich the last one - in messages decoded by generated
+	// code only (the runtimes re-encode the keys of the unknown fields they keep, the reference parse does not)
 	unk := func(last bool) []byte {
 		u := s.unknownField(t, sr)
-		if (o.LongKeys && sr.Intn(2) == 0) || (o.Sandwich && last) {
+		pad := (o.LongKeys && sr.Intn(2) == 0) || (o.Sandwich && last)
+		if pad && (generatedTypes == nil || generatedTypes[t]) {
 			u = padKey(u)
 		}
 		return u
